@@ -2858,7 +2858,10 @@ static Type *struct_union_decl(Token **rest, Token *tok) {
   if (tag && !equal(tok, "{")) {
     *rest = tok;
 
-    Type *ty2 = find_tag(tag);
+    // `struct T;` declares T in the current scope even if an outer
+    // scope has a T; any other mention refers to the visible T.
+    Type *ty2 = equal(tok, ";") ? hashmap_get2(&scope->tags, tag->loc, tag->len)
+                                : find_tag(tag);
     if (ty2)
       return ty2;
 
